@@ -1,6 +1,8 @@
 /* C06 adapter: aws_priority_queue driven by a script; reports results and public observable state. */
 #include "vh_core.h"
 
+#include <stddef.h>
+
 #include <aws/common/priority_queue.h>
 
 #define NH 12
@@ -9,6 +11,19 @@ static bool live, is_static;
 static void *static_heap;
 static size_t isz;
 static struct aws_priority_queue_node nodes[NH + 1];
+/* "embedded" mode (RESET ... <cmp> embed): the elements are records that carry their own handle, stored by value, and a
+ * record is removed "into itself": aws_priority_queue_remove(&pq, &rec, &rec.node) - the output buffer overlaps the handle.
+ * The bytes of the embedded handle are not part of the pattern. */
+struct rec {
+    uint8_t head[16];
+    struct aws_priority_queue_node node;
+    uint8_t tail[8];
+};
+#define NODE_OFF offsetof(struct rec, node)
+static struct rec recs[NH + 1];
+static bool embed;
+#define HND(h) (embed ? &recs[h].node : &nodes[h])
+#define IN_NODE(i) (embed && (i) >= NODE_OFF && (i) < NODE_OFF + sizeof(struct aws_priority_queue_node))
 
 static int cmp(const void *a, const void *b) {
     uint8_t x = *(const uint8_t *)a, y = *(const uint8_t *)b;
@@ -31,7 +46,9 @@ static void fill(uint8_t *e, int v, int id) {
         e[1] = (uint8_t)(id & 0xff);
         e[2] = (uint8_t)(id >> 8);
         for (size_t i = 3; i < isz; ++i) {
-            e[i] = (uint8_t)(id * 7 + i * 13);
+            if (!IN_NODE(i)) {
+                e[i] = (uint8_t)(id * 7 + i * 13);
+            }
         }
     }
 }
@@ -50,7 +67,7 @@ static int pat_ok(const uint8_t *e) {
     }
     int id = id_of(e);
     for (size_t i = 3; i < isz; ++i) {
-        if (e[i] != (uint8_t)(id * 7 + i * 13)) {
+        if (!IN_NODE(i) && e[i] != (uint8_t)(id * 7 + i * 13)) {
             return 0;
         }
     }
@@ -60,8 +77,8 @@ static int all_pat = 1;
 static void state(void) {
     long long inq[NH], idx[NH];
     for (int h = 1; h <= NH; ++h) {
-        inq[h - 1] = aws_priority_queue_node_is_in_queue(&nodes[h]) ? 1 : 0;
-        idx[h - 1] = nodes[h].current_index == SIZE_MAX ? -1 : (long long)nodes[h].current_index;
+        inq[h - 1] = aws_priority_queue_node_is_in_queue(HND(h)) ? 1 : 0;
+        idx[h - 1] = HND(h)->current_index == SIZE_MAX ? -1 : (long long)HND(h)->current_index;
     }
     size_t n = aws_priority_queue_size(&pq);
     int pat = all_pat;
@@ -119,8 +136,17 @@ int main(int argc, char **argv) {
             isz = (size_t)vh_argi(3);
             free(e);
             e = malloc(isz); /* exact-size scratch element: ASan sees any over-read/over-write */
+            embed = vh_ntok > 5 && !strcmp(vh_args(5), "embed");
+            if (embed) {
+                isz = sizeof(struct rec);
+                free(e);
+                e = malloc(isz);
+                memset(e, 0, isz);
+            }
+            memset(recs, 0, sizeof(recs));
             for (int h = 0; h <= NH; ++h) {
                 aws_priority_queue_node_init(&nodes[h]);
+                aws_priority_queue_node_init(&recs[h].node); /* the copy of the handle inside a stored element says "not in a queue" */
             }
             const char *ck = vh_ntok > 4 ? vh_args(4) : "3way";
             aws_priority_queue_compare_fn *cf = !strcmp(ck, "bool") ? cmp_bool : (!strcmp(ck, "diff") ? cmp_diff : cmp);
@@ -138,8 +164,9 @@ int main(int argc, char **argv) {
             vh_end();
         } else if (vh_is("PUSH")) {
             int v = (int)vh_argi(1), id = (int)vh_argi(2), h = (int)vh_argi(3);
-            fill(e, v, id);
-            int rc = h ? aws_priority_queue_push_ref(&pq, e, &nodes[h]) : aws_priority_queue_push(&pq, e);
+            uint8_t *src = embed && h ? (uint8_t *)&recs[h] : e;
+            fill(src, v, id);
+            int rc = h ? aws_priority_queue_push_ref(&pq, src, HND(h)) : aws_priority_queue_push(&pq, src);
             vh_begin("Push");
             vh_int("v", v);
             vh_int("id", isz == 1 ? -1 : (isz == 2 ? (id & 0xff) : id));
@@ -163,11 +190,14 @@ int main(int argc, char **argv) {
             vh_end();
         } else if (vh_is("REMOVE")) {
             int h = (int)vh_argi(1);
-            memset(e, 0xEE, isz);
-            int rc = aws_priority_queue_remove(&pq, e, &nodes[h]);
+            uint8_t *dst = embed ? (uint8_t *)&recs[h] : e;
+            if (!embed) {
+                memset(e, 0xEE, isz);
+            }
+            int rc = aws_priority_queue_remove(&pq, dst, HND(h));
             vh_begin("Remove");
             vh_int("h", h);
-            out_elem(rc, e);
+            out_elem(rc, dst);
             state();
             vh_end();
         } else if (vh_is("CLEAR")) {
